@@ -72,7 +72,28 @@ InnerBinds2 == { <<VX, AssignT, Json(<<96,55,96>>)>>, <<VY, AssignT, VX>>, <<VX,
 Lets2 == { LetOf(bs, w) : bs \in InnerBinds2, w \in UNION { Wrap(l) : l \in { LetOf(b2, b) : b2 \in {<<VX, AssignT, Json(<<96,57,96>>)>>, <<VY, AssignT, VX>>, <<VX, AssignT, Json(<<96,110,117,108,108,96>>)>>}, b \in InnerBody } } }
 Body2 == UNION { Wrap(l) : l \in Lets2 }
 
-Exprs == { LetOf(bs, b) : bs \in Binds, b \in Body0 } \cup BigLets
+\* correlated sub-queries: inside an iteration a let binds something of the current element and a
+\* filter / projection rooted at $ (or at an outer variable) uses it -- the same sub-expression node is
+\* evaluated once per element with a different environment each time
+Len1(e) == <<Id(<<108,101,110,103,116,104>>), LP>> \o e \o <<RP>>
+RootB == <<RootT, Dot, B>>
+Corr(src, key) == { Len1(src \o <<Filt>> \o key \o <<EqT, VX, RB>>),
+                    src \o <<Filt>> \o key \o <<EqT, VX, RB, Dot>> \o (IF key = <<CurT>> THEN <<LB, CurT, RB>> ELSE key) \o <<PipeT, LB, IntT(<<48>>), RB>>,
+                    src \o <<LB, Star, RB, Dot, LB>> \o key \o <<EqT, VX, RB>>,
+                    Len1(src \o <<Filt>> \o key \o <<NeT, VX, RB>>) }
+Joins == UNION { LET lets == { LetOf(<<VX, AssignT>> \o key, body) : body \in Corr(RootB, key) } IN
+                 UNION { { <<B, LB, Star, RB, Dot, LB>> \o l \o <<RB>>,
+                           <<B, LB, Star, RB, Dot, LBr, Id(<<107>>), Colon>> \o key \o <<Comma, Id(<<110>>), Colon>> \o l \o <<RBr>>,
+                           <<Id(<<109,97,112>>), LP, AmpT, LP>> \o l \o <<RP, Comma, B, RP>>,
+                           <<B, Flat, Dot, LB>> \o l \o <<RB>> } : l \in lets }
+                 : key \in { <<Id(<<97>>)>>, <<CurT>> } }
+         \cup { <<B, Filt>> \o LetOf(<<VX, AssignT, Id(<<97>>)>>, Len1(RootB \o <<Filt, Id(<<97>>), EqT, VX, RB>>)) \o <<GtT, Json(<<96,49,96>>), RB>>,
+                <<Id(<<115,111,114,116,95,98,121>>), LP, B, Comma, AmpT, LP>> \o LetOf(<<VX, AssignT, Id(<<97>>)>>, Len1(RootB \o <<Filt, Id(<<97>>), EqT, VX, RB>>)) \o <<RP, RP, LB, Star, RB, Dot, Id(<<97>>)>>,
+                LetOf(<<VY, AssignT, B>>, <<B, LB, Star, RB, Dot, LB>> \o LetOf(<<VX, AssignT, Id(<<97>>)>>, Len1(<<VY, Filt, Id(<<97>>), EqT, VX, RB>>)) \o <<RB>>),
+                <<B, LB, Star, RB, Dot, LB>> \o LetOf(<<VX, AssignT, Id(<<97>>)>>,
+                      RootB \o <<Filt, Id(<<97>>), EqT, VX, RB, Dot, LB>> \o LetOf(<<VY, AssignT, Id(<<97>>)>>, Len1(RootB \o <<Filt, Id(<<97>>), EqT, VY, AndT, Id(<<97>>), EqT, VX, RB>>)) \o <<RB>>) \o <<RB>> }
+
+Exprs == { LetOf(bs, b) : bs \in Binds, b \in Body0 } \cup BigLets \cup Joins
          \cup (IF Depth >= 2 THEN { LetOf(bs, b) : bs \in Binds, b \in Body1 } ELSE {})
          \cup (IF Depth >= 3 THEN { LetOf(bs, b) : bs \in {<<VX, AssignT, A>>, <<VY, AssignT, B, Comma, VX, AssignT, Json(<<96,49,96>>)>>, <<VX, AssignT, Json(<<96,110,117,108,108,96>>)>>}, b \in Body2 } ELSE {})
          \cup Body0                                              \* no enclosing binding: undefined variable
